@@ -7,6 +7,9 @@ CHECKS = {
              text='Every float/int parameter of every configuration family (19 families incl. SBT, SUTRA, add-ons, S-DAC-GT, AGS/TOUGH2/UPP up to read_parameters, HIP-RA-X) is probed at just-below-min (1 ulp and coarse), min, max, just-above-max and non-member options; the whole finite product is enumerated in the quick tier and random far-outside / strictly-inside values are added by Hypothesis.',
              note='Trusts: the live ParameterDict declarations as the documented ranges (C19 ties them to the published schema); acceptance decided at Model()+read_parameters(); list-valued parameters are outside the statement.', ref='2/C07'),
 }
+CHECKS['C03'] = dict(cat='exploration', tech='Hypothesis-generated configurations with a cost-override layer; oracle: independent roll-up of the run\'s own reported components (invariant over the snapshot taken between Calculate and PrintOutputs)',
+             text='Generated runs over every end-use/plant family x econ model x cost layer (user-fixed vs correlated components, adjustment factors, totals, ITC/grants/fees/tax relief, correlations 1..17, laterals, redrilling); CCap, RITCValue, Coam, Cwell, Cpiping and the end-use equipment part of Cplant are recomputed from the reported parts at rel 1e-9 and every user-supplied figure must appear unchanged.',
+             note='Trusts the snapshot walker (copies every Parameter/OutputParameter after Calculate). Standard Economics class only; sampled, not exhaustive, over continuous inputs.', ref='2/C03')
 NOT_YET = {}
 def main():
     props = [json.loads(l) for l in open(os.path.join(HERE, 'properties.jsonl'))]
